@@ -6,7 +6,10 @@ package tree
 // ---- hash algebra. H(l, r) = keccak256(l ‖ r); collision freedom (A2) is the axiom Hinj.
 
 //@ spec fn H(l Hash, r Hash) Hash = keccak(catB(catB(emptyB(), bytesOf(hb(l), 32)), bytesOf(hb(r), 32)))
-//@ axiom Hinj(a Hash, b Hash, c Hash, d Hash) : H(a, b) == H(c, d) ==> a == c && b == d
+// injectivity through inverse functions (one instance per H term instead of one per pair of H terms)
+//@ spec fn Hleft(h Hash) Hash
+//@ spec fn Hright(h Hash) Hash
+//@ axiom Hinj(a Hash, b Hash) : Hleft(H(a, b)) == a && Hright(H(a, b)) == b @trigger H(a, b)
 //@ spec fn zeroAt(h int) Hash = ite(h <= 0, ZeroHash, H(zeroAt(h-1), zeroAt(h-1)))
 
 // the root obtained by hashing a leaf upwards with the siblings of a proof, along the bits of the index
@@ -26,4 +29,39 @@ package tree
 //@ func CalculateRoot
 //@   props C08 C09 C12
 //@   ensures[fold] result == foldUp(leafHash, proof, index, 32)
+//@   loop 0 unroll 32
+
+// ---- the reverse hash table (rht) of a tree as ghost maps: node hash -> (left, right).
+// getRHTNode is the data-access boundary: its SQL semantics are assumed (A5) for the pinned statement,
+// including content addressing of stored nodes (every row was produced by newTreeNode; see storeNodes).
+
+//@ ghost field rhtHas map[Hash]bool
+//@ ghost field rhtL map[Hash]Hash
+//@ ghost field rhtR map[Hash]Hash
+
+// node reached at level h when descending from root along the bits of idx (level 32 = root, level 0 = leaf)
+//@ spec fn desc(L map[Hash]Hash, R map[Hash]Hash, root Hash, idx uint32, h int) Hash = ite(h >= 32, root, ite(bitAt(idx, h), R[desc(L, R, root, idx, h+1)], L[desc(L, R, root, idx, h+1)]))
+
+//@ func (t *Tree) getRHTNode
+//@   props C01 C08 C11
+//@   trusted
+//@   sqltext "SELECT * FROM %s WHERE hash = $1"
+//@   requires t != nil
+//@   modifies nothing
+//@   ensures result0 != nil && fresh(result0)
+//@   ensures result1 == nil ==> rhtHas(t)[nodeHash] && result0.Hash == nodeHash && result0.Left == rhtL(t)[nodeHash] && result0.Right == rhtR(t)[nodeHash]
+//@   ensures result1 == nil ==> nodeHash == H(result0.Left, result0.Right)
+//@   ensures (result1 != nil && isErr(result1, db.ErrNotFound)) ==> !rhtHas(t)[nodeHash]
+
+//@ func (t *Tree) GetLeaf
+//@   props C08
+//@   requires t != nil
+//@   ensures[leaf] result1 == nil ==> result0 == desc(rhtL(t), rhtR(t), root, index, 0)
+//@   loop 0 unroll 32
+
+//@ func (t *Tree) getSiblings
+//@   props C08 C09 C12
+//@   requires t != nil && len(t.zeroHashes) == 33
+//@   ensures[proof-verifies] (err == nil && !hasUsedZeroHashes) ==> foldUp(desc(rhtL(t), rhtR(t), root, index, 0), siblings, index, 32) == root
+//@   ensures[missing-means-flag] (err == nil && !hasUsedZeroHashes) ==> rhtHas(t)[root]
 //@   loop 0 unroll 32
